@@ -7,7 +7,7 @@
 From SL Require Import Lib.Base Lib.Oracle Lib.ZqGroup Gen.Params Model.Gf128 Model.SoftSpoken Model.Endemic
   Model.RvoleCore Model.Rvole.
 From SL Require Import Proofs.Gf128Spec Proofs.SoftSpokenBytes Proofs.SoftSpokenC03 Proofs.Endemic Proofs.EndemicThm.
-From SL Require Import Proofs.RvoleLemmas Proofs.RvoleCorrect Proofs.RvoleTamper Proofs.RvolePipeline Proofs.RvoleClosed.
+From SL Require Import Proofs.RvoleLemmas Proofs.RvoleCorrect Proofs.RvoleTamper Proofs.RvolePipeline Proofs.RvoleOtReply Proofs.RvoleClosed.
 Local Open Scope Z_scope.
 
 (** An honest round-two message is always accepted (every oracle, input, tape). *)
@@ -247,6 +247,32 @@ Check rvole_ot_process_flip_mu_hash :
   accepted (rvole_ot_recv_process H q G O st m2a m2b m) ->
   rvole_ot_recv_process H q G O st m2a m2b m' = Err rv_err_check.
 Print Assumptions rvole_ot_process_flip_mu_hash.
+
+(** Base-OT variant, corruption confined to the embedded base-OT replies (PARTIAL, see Proofs/RvoleOtReply.v): a change confined to sides the receiver does not read leaves verdict and shares unchanged; an undecodable point on a read side gives Err(Decode error). The third case (a different decodable point on a read side) is covered by enumeration, not by a theorem. *)
+Theorem rvole_ot_reply_tamper_partial :
+ forall G (O : group_ops G) (H : transcript_oracle) (q : Z)
+  (st : rvo_state) m2a m2b (m : rmsg),
+  (forall m2a' m2b',
+     (forall idx, (idx < eot_n)%nat -> read_side (ro_a st) m2a' idx = read_side (ro_a st) m2a idx) ->
+     (forall idx, (idx < eot_n)%nat -> read_side (ro_b st) m2b' idx = read_side (ro_b st) m2b idx) ->
+     rvole_ot_recv_process H q G O st m2a' m2b' m = rvole_ot_recv_process H q G O st m2a m2b m) /\
+  ((exists idx, (idx < eot_n)%nat /\ g_dec O (read_side (ro_a st) m2a idx) = None) \/
+   ((forall idx, (idx < eot_n)%nat -> g_dec O (read_side (ro_a st) m2a idx) <> None) /\
+    exists idx, (idx < eot_n)%nat /\ g_dec O (read_side (ro_b st) m2b idx) = None) ->
+   rvole_ot_recv_process H q G O st m2a m2b m = Err rv_err_decode).
+Proof. exact rvole_ot_reply_tamper_partial_closed. Qed.
+Check rvole_ot_reply_tamper_partial :
+ forall G (O : group_ops G) (H : transcript_oracle) (q : Z)
+  (st : rvo_state) m2a m2b (m : rmsg),
+  (forall m2a' m2b',
+     (forall idx, (idx < eot_n)%nat -> read_side (ro_a st) m2a' idx = read_side (ro_a st) m2a idx) ->
+     (forall idx, (idx < eot_n)%nat -> read_side (ro_b st) m2b' idx = read_side (ro_b st) m2b idx) ->
+     rvole_ot_recv_process H q G O st m2a' m2b' m = rvole_ot_recv_process H q G O st m2a m2b m) /\
+  ((exists idx, (idx < eot_n)%nat /\ g_dec O (read_side (ro_a st) m2a idx) = None) \/
+   ((forall idx, (idx < eot_n)%nat -> g_dec O (read_side (ro_a st) m2a idx) <> None) /\
+    exists idx, (idx < eot_n)%nat /\ g_dec O (read_side (ro_b st) m2b idx) = None) ->
+   rvole_ot_recv_process H q G O st m2a m2b m = Err rv_err_decode).
+Print Assumptions rvole_ot_reply_tamper_partial.
 
 (** Non-vacuity of the premises of rvole_selective_failure: a concrete one-row instance. *)
 Example rvole_selective_hyps_satisfiable :
